@@ -28,7 +28,7 @@ package parser
 //@   props C04 C02
 //@   opt nilrecv true
 //@   ensures[assumed-abstract-name] r == typeEq(t, t2)
-//@   ensures[C04 structural-equality] r == eqT(t, t2)
+//@   ensures[C04 C02 structural-equality] r == eqT(t, t2)
 //@   modifies nothing
 //@   loop 1 invariant eqT(t, t2) == eqT(left, right)
 //@   loop 1 decreases depth(left)
@@ -36,7 +36,7 @@ package parser
 //@ func (t *Type) accepts(t2 *Type) (r bool)
 //@   props C04 C02
 //@   opt nilrecv true
-//@   ensures[C04 assignability] r == acc(t, t2, false, true)
+//@   ensures[C04 C02 assignability] r == acc(t, t2, false, true)
 //@   modifies nothing
 //@   loop 1 invariant acc(t, t2, false, true) == acc(left, right, rightFixed, left == t) && (left != t ==> depth(left) < depth(t))
 //@   loop 1 decreases depth(left)
@@ -44,7 +44,7 @@ package parser
 //@ func (t *Type) matches(t2 *Type) (r bool)
 //@   props C04 C02
 //@   opt nilrecv true
-//@   ensures[C04 operand-compatibility] r == mat(t, t2)
+//@   ensures[C04 C02 operand-compatibility] r == mat(t, t2)
 //@   modifies nothing
 //@   loop 1 invariant mat(t, t2) == mat(left, right)
 //@   loop 1 decreases depth(left)
@@ -183,8 +183,8 @@ package parser
 //@   requires binaryExp != nil && binaryExp.token != nil && binaryExp.Left != nil && binaryExp.Right != nil
 //@   let lt = callres("(Node).Type", 1, 0).(*Type)
 //@   let rt = callres("(Node).Type", 2, 0).(*Type)
-//@   ensures[C04 C05 operator-table] ncalls("(*parser).appendErrorForToken") <= 1 && (binaryExp.Op == OP_ILLEGAL || binaryExp.Op == OP_BANG ==> ncalls("(*parser).appendErrorForToken") == 1)
-//@   ensures[C04 C05 operator-table-typed] binaryExp.Op != OP_ILLEGAL && binaryExp.Op != OP_BANG ==> ncalls("(Node).Type") == 2 && callarg("(Node).Type", 1, 0) == binaryExp.Left && callarg("(Node).Type", 2, 0) == binaryExp.Right && ((ncalls("(*parser).appendErrorForToken") == 0) <==> okBinary(binaryExp.Op, lt, rt))
+//@   ensures[C04 C05 C02 operator-table] ncalls("(*parser).appendErrorForToken") <= 1 && (binaryExp.Op == OP_ILLEGAL || binaryExp.Op == OP_BANG ==> ncalls("(*parser).appendErrorForToken") == 1)
+//@   ensures[C04 C05 C02 operator-table-typed] binaryExp.Op != OP_ILLEGAL && binaryExp.Op != OP_BANG ==> ncalls("(Node).Type") == 2 && callarg("(Node).Type", 1, 0) == binaryExp.Left && callarg("(Node).Type", 2, 0) == binaryExp.Right && ((ncalls("(*parser).appendErrorForToken") == 0) <==> okBinary(binaryExp.Op, lt, rt))
 //@   ensures[C03 located] ncalls("(*parser).appendErrorForToken") == 1 ==> callarg("(*parser).appendErrorForToken", 1, 2).(*lexer.Token) == binaryExp.token
 //@   modifies p.errors, class elem:*parser.Error
 
@@ -192,7 +192,7 @@ package parser
 //@   props C04 C05 C02
 //@   requires unaryExp != nil && unaryExp.token != nil && unaryExp.Right != nil
 //@   let rt = callres("(Node).Type", 1, 0).(*Type)
-//@   ensures[C04 C05 unary-table] ncalls("(*parser).appendErrorForToken") <= 1 && ((ncalls("(*parser).appendErrorForToken") == 0) <==> ((unaryExp.Op == OP_MINUS && rt == NUM_TYPE) || (unaryExp.Op == OP_BANG && rt == BOOL_TYPE)))
+//@   ensures[C04 C05 C02 unary-table] ncalls("(*parser).appendErrorForToken") <= 1 && ((ncalls("(*parser).appendErrorForToken") == 0) <==> ((unaryExp.Op == OP_MINUS && rt == NUM_TYPE) || (unaryExp.Op == OP_BANG && rt == BOOL_TYPE)))
 //@   ensures[C03 located] ncalls("(*parser).appendErrorForToken") == 1 ==> callarg("(*parser).appendErrorForToken", 1, 2).(*lexer.Token) == unaryExp.token
 //@   modifies p.errors, class elem:*parser.Error
 
